@@ -10,7 +10,7 @@ From Coq Require Import ZArith List Bool.
 From BT Require Import Model.RTree Model.TreeSpec Model.Check Model.CheckTree
                        Model.Persist Model.PersistSpec Proofs.StoreProofs Proofs.PersistProofs.
 From BT Require Import Model.TreeRun Model.PersistWorld Proofs.RunSyncProofs.
-From BT Require Import Model.Chain Model.ChainRun Proofs.ChainProofs Proofs.ChainRunProofs Proofs.ChainStateProofs.
+From BT Require Import Model.Chain Model.ChainRun Proofs.ChainProofs Proofs.ChainRunProofs Proofs.ChainStateProofs Proofs.AbortProofs.
 Import ListNotations.
 Open Scope Z_scope.
 
@@ -155,3 +155,41 @@ Theorem C04_getstate_after_any_history : forall (vs ir : bool) (ml mi : nat),
     pgetstate Z (p_heap (snd sp)) stored n = getstate Z stored t n.
 Proof. exact ChainStateProofs.getstate_after_history. Qed.
 Print Assumptions C04_getstate_after_any_history.
+
+(* The abort clause: "after an abort the writer's own in-memory container shows
+   the last committed contents again".  Model/PersistWorld.v, abort_items: an
+   abort invalidates every REGISTERED object (it reloads its record when next
+   used), unregistered objects keep their in-memory state, children are
+   resolved the same way.  For every history that ends in a commit followed by
+   any number of public calls (the guard holding whenever an action starts),
+   the writer's view after an abort is the contents at that commit.  The
+   substance is the invariant `synced` -- every stored node that did not
+   register still equals its record -- maintained by every call and commit.
+   Assumed by the model: an object that has left the writer's tree during the
+   transaction is re-read from its record (see F33 for what such objects can do
+   to a COMMIT; an abort writes nothing). *)
+Theorem C04_abort_partial :
+  forall (vs isC : bool) (ml mi : nat), (1 <= ml)%nat -> (2 <= mi)%nat ->
+  forall (acts : list action) (seq : list nat) (calls : list call),
+  (forall c, In (ACall c) acts -> simple_call c = true) ->
+  (forall c, In c calls -> simple_call c = true) ->
+  run_ok vs isC ml mi pw_init (acts ++ [ACommit seq] ++ map ACall calls) ->
+  let w1 := pw_run vs isC ml mi pw_init (acts ++ [ACommit seq]) in
+  let w2 := pw_run vs isC ml mi w1 (map ACall calls) in
+  abort_view (S (length (ids Z (t_tree (pw_st w1))))) w2 = contents Z (t_tree (pw_st w1)).
+Proof. exact AbortProofs.abort_restores. Qed.
+Print Assumptions C04_abort_partial.
+
+(* non-vacuity: commit, then a transaction that splits a leaf, deletes and
+   overwrites; the abort view is the committed contents, the uncommitted tree is not *)
+Example C04_abort_example :
+  let acts := [ACall (CSet 5 50); ACall (CSet 1 10); ACall (CSet 9 90)] in
+  let w0 := pw_run false true 2 2 pw_init acts in
+  let seq := rev (ids Z (t_tree (pw_st w0))) in
+  let w1 := pw_run false true 2 2 pw_init (acts ++ [ACommit seq]) in
+  let calls := [CSet 3 30; CSet 7 70; CDel 1; CSet 9 91] in
+  let w2 := pw_run false true 2 2 w1 (map ACall calls) in
+  abort_view 20 w2 = [(1, 10); (5, 50); (9, 90)] /\
+  contents Z (t_tree (pw_st w2)) = [(3, 30); (5, 50); (7, 70); (9, 91)] /\
+  no_embed_below_b true (p_stored (pw_p w2)) (t_tree (pw_st w2)) = true.
+Proof. vm_compute. repeat split. Qed.
